@@ -8,6 +8,7 @@ from .. import gen, iterlab
 from ..core import Clause, Violation
 
 META = {
+    "thorough_scale": 2,
     "level": "exploration",
     "rule": (
         "Differential testing. Clause render_pairs: the C08 op histories are run on two iterators over two "
